@@ -234,6 +234,10 @@ func replayNative(repo, hdir string, h *Harness, path string) string {
 		if res == "ASSERT-FAILED "+rp.Tag || strings.Contains(txt, "VERIF-REPLAY-FAILED: "+rp.Tag+"\n") {
 			return "reproduced"
 		}
+		if strings.HasPrefix(rp.Tag, "C20:") && strings.Contains(rp.Tag, "allocat") && (strings.Contains(txt, "fatal error: runtime: out of memory") || strings.Contains(txt, "makeslice: len out of range") || strings.Contains(txt, "cannot allocate memory")) {
+			// the real build asked the Go runtime for the unpaid allocation and died of it
+			return "reproduced"
+		}
 		if strings.HasPrefix(rp.Tag, "C20:") && strings.Contains(rp.Tag, "allocat") && res == "completed" {
 			// the allocation counter exists only in the symbolic engine
 			return "symbolic-only"
